@@ -471,7 +471,8 @@ Lemma shift_prepare_ok s p out off :
      emit_ready (p_s q) (p_nsp q) (p_out q) (p_off q) /\ lenN (p_out q) = lenN out /\
      off <= p_off q /\ p_off q <= off + 1 /\
      (num_bytes_written p = None -> p_off q = off + 1) /\
-     (num_bytes_written p <> None -> p_off q = off /\ exists w, num_bytes_written p = Some w /\ w < num_bytes_read p)
+     (num_bytes_written p <> None -> p_off q = off /\ exists w, num_bytes_written p = Some w /\ w < num_bytes_read p) /\
+     (exists w, num_bytes_written (p_nsp q) = Some w /\ w < num_bytes_read (p_nsp q))
   end.
 Proof.
   intros HI Hsan [P1 P2 P3 P4] Hsuf Hout Hoff.
@@ -489,6 +490,7 @@ Proof.
       exists w. conj; fin. }
     assert (HW : Some w <> None -> off = off /\ exists w0, Some w = Some w0 /\ w0 < nr).
     { intros _. split; [reflexivity|]. exists w. split; [reflexivity|exact A]. }
+    assert (HX : exists w0, Some w = Some w0 /\ w0 < nr) by (exists w; split; [reflexivity|exact A]).
     conj; fin. }
   specialize (Hsuf eq_refl). subst nr.
   unfold slice_to. rewrite P1. cbn [N.leb N.compare Pos.compare Pos.compare_cont].
@@ -514,6 +516,7 @@ Proof.
       + rewrite lenN_setN by exact Hoff. lia.
       + apply bytes_ok_setN; [exact Hout|apply Hb0; exact P2]. }
     assert (HL : lenN (setN out off b0) = lenN out) by (apply lenN_setN; exact Hoff).
+    assert (HX : exists w0, Some 1 = Some w0 /\ w0 < 5) by (exists 1; split; [reflexivity|lia]).
     conj; fin. }
   destruct (N.ltb_spec ws pw) as [Hgt|Hle].
   { eexists. split; [reflexivity|]. right. left. reflexivity. }
@@ -554,6 +557,10 @@ Proof.
     + rewrite lenN_setN by exact Hoff. lia.
     + apply bytes_ok_setN; [exact Hout|apply Hr0; exact Bc]. }
   assert (HL : lenN (setN out off r0) = lenN out) by (apply lenN_setN; exact Hoff).
+  assert (Hwbd3 : wbs <= wbd + 2).
+  { subst wbd wbs. replace ((bo + v - wo + 7) / 8 + 2) with ((bo + v - wo + 7) / 8 + 1 + 1) by lia.
+    rewrite <- !ceil8_add8. apply div8_le. lia. }
+  assert (HX : exists w0, Some 0 = Some w0 /\ w0 < wbd + (5 - wbs) - 1) by (exists 0; split; [reflexivity|lia]).
   conj; fin.
 Qed.
 
@@ -852,7 +859,7 @@ Proof.
     destruct rc; try congruence;
       (eexists; split; [reflexivity|]; unfold stream_post; cbn [r_s r_in r_out r_off r_rc];
        conj; try fin; intros [X|X]; discriminate X). }
-  destruct Ppr as (Q1 & Q2 & Q3 & Q4 & Q5 & Q6 & Q7 & Q8 & Q9).
+  destruct Ppr as (Q1 & Q2 & Q3 & Q4 & Q5 & Q6 & Q7 & Q8 & Q9 & _).
   rewrite Hp1 in Q1.
   destruct (shift_emit_ok (p_s q) p1 (p_nsp q) (p_out q) (p_off q) Q1 Q2 Q4) as (g & Eg & G1 & G2 & G3 & G4 & G5).
   rewrite Eg.
